@@ -18,6 +18,7 @@ def table (group : String) : Option (List (String × OpS)) :=
   | "sim" => some opsSim
   | "tm" => some opsTm
   | "rand" => some opsRand
+  | "text" => some opsText
   | _ => none
 
 def outLineS (x : Except Err (List String)) : String :=
